@@ -1,4 +1,4 @@
-(* C06 — wire formats and oracles. Five kinds of cases, told apart by the first number:
+(* C06 — wire formats and oracles. Six kinds of cases, told apart by the first number:
 
      (no tag)  a history of the shared manager model (coq/Mgr/Glue.v), C06 oracle;
      9600      the ConnectionLimits object alone (coq/Mgr/Limits.v): a configuration built by a
@@ -9,7 +9,9 @@
                choices the manager must ignore (results of reject / accept_pending /
                reject_pending);
      9603      real loopback sockets: what the real TcpTransport / WebSocketTransport do with a
-               connection the owner accepts or rejects, seen from the remote end.
+               connection the owner accepts or rejects, seen from the remote end;
+     9604      complete Litep2p nodes over real sockets, configured and observed through the public
+               API; expected answers computed by the manager model.
 
    prop_ok judges what the property text demands on the trace alone; the agreement of trace and
    model (including the call log) is the correspondence check. Definitions only. *)
@@ -23,6 +25,7 @@ Definition TAG_LIMITS : N := 9600.
 Definition TAG_PEER : N := 9601.
 Definition TAG_WRAPPED : N := 9602.
 Definition TAG_SOCK : N := 9603.
+Definition TAG_E2E : N := 9604.
 
 (* ======================= 9600: the ConnectionLimits object ======================= *)
 Definition p_cfg_call : parser cfg_call :=
@@ -315,6 +318,25 @@ Fixpoint p_trace6 (n : nat) : parser (list obs) :=
                     end
   end.
 
+(* every established connection delivered by an installed transport is answered by exactly one of
+   accept(c) / reject(c), every pending inbound socket by exactly one of accept_pending(c) /
+   reject_pending(c) (a step that panicked is not judged) *)
+Fixpoint answered_ok (L : limits) (es : list ev) (tr : list obs) : bool :=
+  match es, tr with
+  | e :: es', o :: tr' =>
+      (if o_stuck o =? 0 then
+         match e with
+         | TrEstablished _ c t _ _ =>
+             if installed L t then xorb (has_call 5 c o) (has_call 6 c o)
+             else negb (has_call 5 c o) && negb (has_call 6 c o)
+         | TrPendingInbound c t =>
+             if installed L t then xorb (has_call 7 c o) (has_call 8 c o) else true
+         | _ => true
+         end
+       else true) && answered_ok L es' tr'
+  | _, _ => true
+  end.
+
 Definition prop_ok_wrapped (body trace : list N) : bool :=
   match body with
   | _ :: mcase =>
@@ -323,7 +345,7 @@ Definition prop_ok_wrapped (body trace : list N) : bool :=
           match trace with
           | 1 :: rest =>
               match pall (p_trace6 (length es)) rest with
-              | Some tr => c06_ok L None es tr [] [] []
+              | Some tr => c06_ok L None es tr [] [] [] && answered_ok L es tr
               | None => false
               end
           | _ => false
@@ -404,6 +426,114 @@ Definition prop_ok_sock (body trace : list N) : bool :=
   | None => match trace with [0] => true | _ => false end
   end.
 
+(* ======================= 9604: complete nodes over real sockets =======================
+   case body: max_in, max_out (enc_opt), then operations (kind, p) on remote nodes p = 1..4:
+     0 p  remote p dials the node   -> [node reports ConnectionEstablished(p); what the remote saw:
+                                        1 open, 2 established then closed, 3 its dial failed]
+     1 p  the node dials remote p   -> [result of Litep2p::dial_address (0 Ok, 1 ConnectionLimit, ..);
+                                        node reports ConnectionEstablished(p)]
+     2 p  remote p is killed        -> [node reports ConnectionClosed(p); 0]
+   The expected answers are those of the MANAGER MODEL on the translation of each operation into
+   manager events (only TCP installed; the remote's address is the canonical one). *)
+Definition e2e_L (mi mo : N) : limits := mkLimits (dec_opt mi) (dec_opt mo) [TCP].
+
+Definition has_out (f : out -> bool) (os : list out) : bool := existsb f os.
+Definition is_reject_pending (o : out) : bool := match o with CallRejectPending _ _ => true | _ => false end.
+Definition is_reject (o : out) : bool := match o with CallReject _ _ => true | _ => false end.
+Definition is_established (o : out) : bool := match o with EvEstablished _ _ => true | _ => false end.
+Definition is_closed (o : out) : bool := match o with EvClosed _ _ => true | _ => false end.
+
+(* one operation on the model: new manager state, the connections the node has (peer -> id), answer *)
+Definition e2e_op (L : limits) (m : mgr) (conns : list (N * N)) (kind p : N) : mgr * list (N * N) * list N :=
+  match kind with
+  | 0 =>
+      let c := next_conn m in
+      let '(m1, _) := step L m AllocConn in
+      let '(m2, o2) := step L m1 (TrPendingInbound c TCP) in
+      if has_out is_reject_pending o2 then (m2, conns, [0; 3])
+      else
+        let '(m3, o3) := step L m2 (TrEstablished p c TCP true false) in
+        if has_out is_reject o3 then (m3, conns, [0; 2])
+        else
+          let '(m4, o4) := step L m3 (AcceptDone c true) in
+          if has_out is_established o4 then (m4, insert_key p c conns, [1; 1]) else (m4, conns, [0; 1])
+  | 1 =>
+      let c := next_conn m in
+      let '(m1, o1) := step L m (CmdDialAddr p TCP false) in
+      let code := ret_of o1 - 1 in
+      if code =? RET_OK then
+        let '(m2, o2) := step L m1 (TrEstablished p c TCP false false) in
+        if has_out is_reject o2 then (m2, conns, [code; 0])
+        else
+          let '(m3, o3) := step L m2 (AcceptDone c true) in
+          if has_out is_established o3 then (m3, insert_key p c conns, [code; 1]) else (m3, conns, [code; 0])
+      else (m1, conns, [code; 0])
+  | _ =>
+      match lookup p conns with
+      | Some c =>
+          let '(m1, o1) := step L m (Closed p c) in
+          (m1, remove_key p conns, [if has_out is_closed o1 then 1 else 0; 0])
+      | None => (m, conns, [0; 0])
+      end
+  end.
+
+Fixpoint e2e_trace (L : limits) (m : mgr) (conns : list (N * N)) (ops : list (N * N)) : list N :=
+  match ops with
+  | [] => []
+  | (k, p) :: t => let '(m', conns', ans) := e2e_op L m conns k p in ans ++ e2e_trace L m' conns' t
+  end.
+
+Definition p_e2e_op : parser (N * N) :=
+  let* k := pN in let* p := pN in if (k <? 3) && (1 <=? p) && (p <=? 4) then pret (k, p) else pfail.
+Definition decode_e2e (l : list N) : option (N * N * list (N * N)) :=
+  pall (let* mi := pN in let* mo := pN in let* ops := plist p_e2e_op in pret (mi, mo, ops)) l.
+
+Definition run_e2e (body : list N) : list N :=
+  match decode_e2e body with
+  | Some (mi, mo, ops) => 1 :: e2e_trace (e2e_L mi mo) init [] ops
+  | None => [0]
+  end.
+
+(* the property judged on what the public API showed: `cin` / `cout` = peers with an inbound /
+   outbound connection according to the node's own ConnectionEstablished / ConnectionClosed events *)
+Fixpoint e2e_ok (mi mo : option N) (cin cout : list N) (ops : list (N * N)) (obs : list (N * N)) : bool :=
+  match ops, obs with
+  | [], [] => true
+  | (k, p) :: ops', (a, b) :: obs' =>
+      let connected := mem p cin || mem p cout in
+      match k with
+      | 0 =>
+          (* never above the maximum; below it a new peer gets in; a turned-away remote sees its
+             connection go (closed, or its dial fails) *)
+          (if a =? 1 then strictly_under mi (len cin) && (b =? 1)
+           else (negb (strictly_under mi (len cin)) || connected) && ((b =? 2) || (b =? 3))) &&
+          e2e_ok mi mo (if a =? 1 then p :: cin else cin) cout ops' obs'
+      | 1 =>
+          (* ConnectionLimit exactly when the outbound connections have reached the maximum *)
+          (if connected then true
+           else if strictly_under mo (len cout) then (a =? 0) && (b =? 1) else (a =? 1) && (b =? 0)) &&
+          e2e_ok mi mo cin (if b =? 1 then p :: cout else cout) ops' obs'
+      | _ =>
+          Bool.eqb (a =? 1) connected &&
+          e2e_ok mi mo (set_remove p cin) (set_remove p cout) ops' obs'
+      end
+  | _, _ => false
+  end.
+
+Definition prop_ok_e2e (body trace : list N) : bool :=
+  match decode_e2e body with
+  | Some (mi, mo, ops) =>
+      match trace with
+      | 1 :: rest =>
+          match pall (prep (length ops) (let* a := pN in let* b := pN in pret (a, b))) rest with
+          | Some obs => e2e_ok (dec_opt mi) (dec_opt mo) [] [] ops obs
+          | None => false
+          end
+      | _ => false
+      end
+  | None => match trace with [0] => true | _ => false end
+  end.
+
 (* ======================= dispatch ======================= *)
 Definition run_case (l : list N) : list N :=
   match l with
@@ -412,6 +542,7 @@ Definition run_case (l : list N) : list N :=
       else if t =? TAG_PEER then run_peer body
       else if t =? TAG_WRAPPED then run_wrapped body
       else if t =? TAG_SOCK then run_sock body
+      else if t =? TAG_E2E then run_e2e body
       else V.Mgr.Glue.run_case l
   | [] => V.Mgr.Glue.run_case l
   end.
@@ -423,6 +554,7 @@ Definition prop_ok (case trace : list N) : bool :=
       else if t =? TAG_PEER then prop_ok_peer body trace
       else if t =? TAG_WRAPPED then prop_ok_wrapped body trace
       else if t =? TAG_SOCK then prop_ok_sock body trace
+      else if t =? TAG_E2E then prop_ok_e2e body trace
       else prop_ok_C06 case trace
   | [] => prop_ok_C06 case trace
   end.
